@@ -600,6 +600,16 @@ def run_keys(ck):
         ck.obligation("harness seriesid --mode keys ran (production cache built by plugin.CreateStaticServiceRegistry)", False, out[-1500:])
         return
     cases = [json.loads(l) for l in open(outp)]
+    flags = [c for c in cases if c.get("class") == "cluster-cache"]
+    cases = [c for c in cases if c.get("class") != "cluster-cache"]
+    want = {"single:first_checkandset": False, "single:has_after_set": True, "single:second_checkandset": True, "single:has_other": False,
+            "cluster:first_checkandset": False, "cluster:has_after_set": False, "cluster:second_checkandset": False, "cluster:has_other": False}
+    got = flags[0]["flags"] if flags else None
+    ck.obligation("numbercache views: a single node remembers what it was told, a node with a ClusterName answers 'not seen' and stores nothing (the premise of acked_sample_is_indexed_cluster_mode)",
+                  got == want, "observed %s" % got)
+    if got != want:
+        ck.violation({"property": "C04", "part": "keys", "kind": "the announcement cache view of a node does not behave as modelled (single: set semantics; cluster: always 'not seen')",
+                      "case": {"observed": got, "expected": want}, "replay": "seriesid --mode keys"})
     txt = ("From Coq Require Import List ZArith Bool String Uint63.\n"
            "From Qryn Require Import model.Labels model.CacheKey.\n"
            "Import ListNotations.\nOpen Scope Z_scope.\n"
